@@ -260,7 +260,7 @@ def run(ctx):
     cov = {
         "evaluations": len(cases), "distinct_nontrivial": len({(c[4], str(c[1])) for c in cases}),
         "traces_validated_against_impl": len(cases) - len(failing),
-        "rule": "every primitive type x (integers at every range limit +-2, powers of two, random to 2^72; bool; None; str; bytes; "
+        "rule": "every primitive type x (zone-shifted datetimes at the ends of the datetime range, hundreds of half-millisecond ties, a time-zone probe; integers at every range limit +-2, powers of two, random to 2^72; bool; None; str; bytes; "
                 "float classes by bit pattern incl. inf/nan/-0.0/denormals; durations around the i32/i64 limits at sub-millisecond "
                 "offsets; timestamps around 0, the datetime limits and sub-millisecond offsets, in UTC and other zones, naive and aware)",
         "members_written_and_read_back": n_members, "types": len(TYPES),
